@@ -105,12 +105,13 @@ def run(ctx):
             skip.add(e.id)
     ov_f = set(e.id for e in cfg.nodes if e.kind == "F" and is_self_attr(e.ast, "_should_overwrite"))
     early = [n for n in cfg.nodes if n.kind == "return" and n.ast.value is None]
-    ok = bool(calls)
-    for ret in early:
-        # an early return must be dominated by both: already at max, and not overwriting
-        if not (any(cfg.dominates(s, ret.id) for s in skip) and any(cfg.dominates(s, ret.id) for s in ov_f)):
-            ok = False
-    if ok and cfg.all_paths_hit(cfg.entry.id, {c.id for c in calls} | {x.id for x in early}, [cfg.exit.id]):
+    # every path to the exit that avoids set_progress(max) passed both 'already at max' and 'not overwriting'
+    # (in any syntactic form: early return, De Morgan'd positive if, ...)
+    at_max = set(skip) | set(e.id for e in cfg.nodes if e.kind == "F" and isinstance(e.ast, ast.Compare) and isinstance(e.ast.ops[0], ast.NotEq)
+                             and any(is_self_attr(x, "_step") for x in walk_no_nested(e.ast)) and any(is_self_attr(x, "_max") for x in walk_no_nested(e.ast)))
+    callset = {c.id for c in calls}
+    ok = bool(calls) and cfg.all_paths_hit(cfg.entry.id, callset | at_max, [cfg.exit.id]) and cfg.all_paths_hit(cfg.entry.id, callset | ov_f, [cfg.exit.id])
+    if ok:
         r.ok("finish: set_progress(max) on every path except 'already complete and not overwriting'")
     else:
         r.fail(fin, fin.node, "finish", "finish can return without drawing the final frame (set_progress(max) is skipped)")
@@ -124,11 +125,22 @@ def run(ctx):
             for node, kind, t in q.writes_to_self_attr(m, fld):
                 writers.setdefault(name, []).append(node)
         frame_writers = set()
-        for name in writers:
+        for name in methods:
             m = methods[name]
             # a frame writer performs a stream write through the io
             if any(isinstance(c.func, ast.Attribute) and c.func.attr in ("write", "write_line") and is_self_attr(c.func.value) for c in q.calls(m)):
                 frame_writers.add(name)
+        # a private helper that is only ever called from frame writers belongs to the write
+        changed = True
+        while changed:
+            changed = False
+            for name in writers:
+                if name in frame_writers or name == "__init__":
+                    continue
+                callers = {cs.caller.name for cs in cg.callers.get(methods[name].qualname, []) if cs.caller.cls is pb}
+                if name.startswith("_") and callers and callers <= frame_writers:
+                    frame_writers.add(name)
+                    changed = True
         for name, nodes in sorted(writers.items()):
             if name == "__init__" or name in frame_writers:
                 r.ok("%s assigned in %s" % (fld, name))
